@@ -288,10 +288,15 @@ class World:
         self.knobs = dict(knobs)
 
     def replace_content(self, data_seed):
-        """The operator puts another recording of the same shape under the same name (the oracle's pristine copy follows)."""
+        """The operator puts another recording of the same shape under the same name (the oracle's pristine copy follows).
+        Half of the time the replacement keeps an OLD modification time, as `mv`, `cp -p`, `rsync -t` or a restore from
+        backup do: a file's age says nothing about its content."""
         self.O = world.make_data(data_seed, self.w["ns"], self.w["nap"])
         self.Obytes = self.O.tobytes()
+        old = self.bin.stat()
         self.bin.write_bytes(self.Obytes)
+        if data_seed % 2 == 0:
+            os.utime(self.bin, ns=(old.st_atime_ns, old.st_mtime_ns - 10_000_000_000))
         (self.oracle / f"{STEM}.ap.bin").write_bytes(self.Obytes)
         # scratch copies of the old content belong to the old recording: the operator clears them
         for p in list(self.root.rglob("*.bin")):
